@@ -467,3 +467,5 @@ PROP = Prop(
     assumptions=["labels are compared by value (==), not by dtype: by_group sampling of a group "
                  "lacking a class turns int labels into floats and widens string dtypes"],
 )
+
+RULE_EXTRA = ('uint8 scores; explicit, non-alphabetical group_names incl. a name without members; a second object over the same caller arrays; sources of 90-130 scores per class.')
